@@ -16,7 +16,11 @@ struct Desc {
     u8 period, queued, bt_line;
     u8 ev_kind, ev_pos;
     u8 n;
+    u8 scale; // 1: long horizon - cycle budget, timer start values and the audio period are multiplied by 40 (large fast-forward steps)
 };
+inline u32 NCycles(const Desc& d) { return d.n * (d.scale ? 40u : 1u); }
+inline u16 Start0(const Desc& d) { return (u16)(d.scale ? d.t0_start * 40u + 3 : d.t0_start); }
+inline u16 Period(const Desc& d) { return (u16)(d.scale ? d.period * 40u : d.period); }
 inline std::string Show(const Desc& d) {
     static const char* fam[] = {"timer", "audio", "host-event"};
     static const char* mn[] = {"idle(brr -1)", "busy(inc a0; brr -2)", "nop; idle", "3 nops; idle", "busy(inc a0; brr -1,eq [falls through]; brr -3)",
@@ -25,8 +29,8 @@ inline std::string Show(const Desc& d) {
                                "count;retic(context switch)", "write REPLY0;count;reti"};
     return Fmt("{%s main='%s' handler='%s' enabled=%u timer0(mode=%u start=%u line=%u mu=%u) timer1=%u audio(period=%u queued=%u "
                "line=%u) event(kind=%u at=%u) n=%u}",
-               fam[d.family], mn[d.main], hk[d.hk], d.enabled, d.t0_mode, d.t0_start, d.t0_line, d.t0_mu, d.t1_on, d.period,
-               d.queued, d.bt_line, d.ev_kind, d.ev_pos, d.n);
+               fam[d.family], mn[d.main], hk[d.hk], d.enabled, d.t0_mode, Start0(d), d.t0_line, d.t0_mu, d.t1_on, Period(d),
+               d.queued, d.bt_line, d.ev_kind, d.ev_pos, NCycles(d));
 }
 inline std::string Ser(const Desc& d) {
     const u8* p = reinterpret_cast<const u8*>(&d);
@@ -123,20 +127,20 @@ struct Runner {
         t.MMIOWrite(0x206, en[0]), t.MMIOWrite(0x208, en[1]), t.MMIOWrite(0x20A, en[2]), t.MMIOWrite(0x20C, en[3]);
         // ---- peripherals ----
         if (d.family == 0 || d.family == 2) {
-            t.MMIOWrite(0x24, d.t0_start), t.MMIOWrite(0x26, 0);
+            t.MMIOWrite(0x24, Start0(d)), t.MMIOWrite(0x26, 0);
             t.MMIOWrite(0x20, (u16)((d.t0_mode << 2) | (d.t0_mu << 9) | (1 << 10)));
             if (d.t1_on) {
-                t.MMIOWrite(0x34, 3), t.MMIOWrite(0x36, 0);
+                t.MMIOWrite(0x34, (u16)(d.scale ? 97 : 3)), t.MMIOWrite(0x36, 0);
                 t.MMIOWrite(0x30, (1 << 2) | (1 << 10));
             }
         }
         if (d.family == 1) {
-            m.impl->btdmp[0].transmit_period = d.period; // not reachable through MMIO
+            m.impl->btdmp[0].transmit_period = Period(d); // not reachable through MMIO
             for (u16 i = 0; i < d.queued; ++i)
                 t.MMIOWrite(0x2C6, (u16)(0x0101 + i));
             t.MMIOWrite(0x2BE, 0x8000);
             if (d.t1_on) { // a single-shot timer next to the audio port
-                t.MMIOWrite(0x24, 7), t.MMIOWrite(0x26, 0);
+                t.MMIOWrite(0x24, (u16)(d.scale ? 333 : 7)), t.MMIOWrite(0x26, 0);
                 t.MMIOWrite(0x20, (0 << 2) | (1 << 10));
             }
         }
@@ -223,7 +227,7 @@ struct Runner {
             out.push_back(Observe());
             if (desc)
                 desc->push_back(Describe());
-            for (u32 c = 1; c <= d.n; ++c) {
+            for (u32 c = 1; c <= NCycles(d); ++c) {
                 m.teakra->Run(1);
                 if (d.family == 2 && d.ev_pos == c)
                     HostEvent(d);
@@ -299,7 +303,7 @@ inline void CheckProgram(Runner& R, const Desc& d, bool three, Result& res, std:
     digests.insert(th);
     ++res.states; // one program = one model state space root; transitions = slices executed
     std::vector<std::vector<u32>> parts;
-    u32 n = d.n;
+    u32 n = NCycles(d);
     if (d.family == 2) {
         u32 p = d.ev_pos;
         parts.push_back({p, n - p});
@@ -313,9 +317,13 @@ inline void CheckProgram(Runner& R, const Desc& d, bool three, Result& res, std:
         parts.push_back({n});
         for (u32 a = 0; a <= n; ++a)
             parts.push_back({a, n - a});
-        if (three)
+        if (three && !d.scale)
             for (u32 a = 1; a < n; ++a)
                 for (u32 b = 1; a + b < n; ++b)
+                    parts.push_back({a, b, n - a - b});
+        if (three && d.scale) // long horizon: 3-partitions on a grid of 37 plus the neighbours of every multiple of the period / start value
+            for (u32 a = 1; a < n; a += 37)
+                for (u32 b = 1; a + b < n; b += 41)
                     parts.push_back({a, b, n - a - b});
     }
     for (auto& p : parts) {
@@ -335,7 +343,7 @@ inline void CheckProgram(Runner& R, const Desc& d, bool three, Result& res, std:
                                   comp == C_COUNT ? "assertion" : kCompName[comp], p.size() == 1 ? "single-call" : "sliced");
             res.AddViolation(key,
                              Fmt("program %s: Run(%s) differs from %u x Run(1) after %d cycles in %s; sliced: %s | single-stepped: %s",
-                                 Show(d).c_str(), PartStr(p).c_str(), d.n, at, comp == C_COUNT ? "assertion" : kCompName[comp],
+                                 Show(d).c_str(), PartStr(p).c_str(), NCycles(d), at, comp == C_COUNT ? "assertion" : kCompName[comp],
                                  what.c_str(), at < (int)descs.size() ? descs[at].c_str() : "?"),
                              Ser(d) + " parts " + PartStr(p));
             return; // one counterexample per program is enough
@@ -377,6 +385,31 @@ inline std::vector<Desc> Family(bool thorough) {
                                 d.t0_line = line, d.t0_mu = 1, d.t1_on = t1, d.n = n;
                                 v.push_back(d);
                             }
+        // family 0c / 1c: long horizon (x40): large fast-forward steps, timers and audio port expiring hundreds of cycles apart
+        if (n == 36) {
+            for (u8 main : {0, 2, 5})
+                for (u8 mode : {0, 1, 2})
+                    for (u8 start : {0, 1, 5, 6})
+                        for (u8 line : {0, 3})
+                            for (u8 hk : {0, 2})
+                                for (u8 t1 = 0; t1 < 2; ++t1) {
+                                    Desc d{};
+                                    d.family = 0, d.main = main, d.hk = hk, d.enabled = 1, d.t0_mode = mode, d.t0_start = start;
+                                    d.t0_line = line, d.t0_mu = 1, d.t1_on = t1, d.n = n, d.scale = 1;
+                                    v.push_back(d);
+                                }
+            for (u8 main : {0, 2})
+                for (u8 period : {1, 3, 5})
+                    for (u8 q : {0, 3, 6})
+                        for (u8 line : {0, 3})
+                            for (u8 hk : {0, 3})
+                                for (u8 t1 = 0; t1 < 2; ++t1) {
+                                    Desc d{};
+                                    d.family = 1, d.main = main, d.hk = hk, d.enabled = 1, d.period = period, d.queued = q, d.bt_line = line;
+                                    d.t1_on = t1, d.n = n, d.scale = 1;
+                                    v.push_back(d);
+                                }
+        }
         // family 1: audio port
         for (u8 main = 0; main < 4; ++main)
             for (u8 period = 1; period <= 5; ++period)
@@ -468,7 +501,8 @@ inline void Run(const Args& args, Result& res) {
                 blk.distinct = digests.size();
             },
             res);
-    res.rule = "each program of the generated family (idle/busy main line x handler kind x timer mode/start/routing/MU x second "
+    res.rule = "(incl. a long-horizon sub-family: 1440 cycles, timer start values and audio periods of 40..240 cycles, every 2-partition) "
+               "each program of the generated family (idle/busy main line x handler kind x timer mode/start/routing/MU x second "
                "timer x interrupt enables; audio period/fill/routing; host mailbox/semaphore/software-IRQ events at every cycle "
                "position) is run as n x Run(1) (twice: determinism guard), then as Run(n), every 2-partition (incl. empty slices) and "
                "3-partitions; after every slice registers incl. hidden banks, latches, timers, audio port, ICU, APBP, stack window and "
